@@ -23,6 +23,7 @@ import dns.edns
 import dns.immutable
 import dns._immutable_ctx as ictx
 import dns.ipv4
+import dns.ipv6
 import dns.name
 import dns.rdata
 import dns.rdataclass
@@ -612,6 +613,16 @@ CANON = {
     (1, 66): (["u2", "u1", "u2", "name"], lambda c, t, v: _mk(c, t, v[0], v[1], v[2], _nm(v[3]))),
     (1, 16): (["txt"], lambda c, t, v: _mk(c, t, tuple(bytes(r[0]) for r in v[0]))),
     (1, 65280): (["rem"], lambda c, t, v: dns.rdata.GenericRdata(c, t, v[0])),
+    (1, 23): (["name"], lambda c, t, v: _mk(c, t, _nm(v[0]))),
+    (1, 28): (["fixed16"], lambda c, t, v: _mk(c, t, dns.ipv6.inet_ntoa(v[0]))),
+    (1, 13): (["c255", "c255"], lambda c, t, v: _mk(c, t, v[0], v[1])),
+    (1, 44): (["u1", "u1", "rem"], lambda c, t, v: _mk(c, t, v[0], v[1], v[2])),
+    (1, 52): (["u1", "u1", "u1", "rem"], lambda c, t, v: _mk(c, t, v[0], v[1], v[2], v[3])),
+    (1, 53): (["u1", "u1", "u1", "rem"], lambda c, t, v: _mk(c, t, v[0], v[1], v[2], v[3])),
+    (1, 48): (["u2", "u1", "u1", "rem"], lambda c, t, v: _mk(c, t, v[0], v[1], v[2], v[3])),
+    (1, 60): (["u2", "u1", "u1", "rem"], lambda c, t, v: _mk(c, t, v[0], v[1], v[2], v[3])),
+    (1, 256): (["u2", "u2", "rem1"], lambda c, t, v: _mk(c, t, v[0], v[1], v[2])),
+    (1, 257): (["u1", "tag", "rem"], lambda c, t, v: _mk(c, t, v[0], v[1], v[2])),
 }
 _LABELS = [b"a", b"A", b"b", b"example", b"Example", b"EXAMPLE", b"x-1", b"Z", b"z", b"\x00", b"\xc4", b"\xe4", b"@", b"`"]
 
@@ -642,6 +653,12 @@ def gen_canon_vals(rng, kinds):
             out.append(rng.choice([0, 1, 255 if w == 1 else 256, 256 ** w - 1, rng.randrange(256 ** w)]) % 256 ** w)
         elif k == "fixed4":
             out.append(bytes(rng.randrange(256) for _ in range(4)))
+        elif k == "fixed16":
+            out.append(bytes(rng.randrange(256) for _ in range(16)))
+        elif k == "rem1":
+            out.append(bytes(rng.choice(b"aA/:\xff") for _ in range(rng.choice([1, 2, 9]))))
+        elif k == "tag":
+            out.append(bytes(rng.choice(b"issueISSUE0") for _ in range(rng.choice([1, 5]))))
         elif k == "c255":
             out.append(bytes(rng.choice(b"aAbB\x00\xff") for _ in range(rng.choice([0, 1, 2, 5]))))
         elif k == "rem":
@@ -1811,9 +1828,9 @@ def ref_canonical(typ, kinds, vals):
                 out += bytes([len(l)]) + (_lower(l) if typ in RFC4034_DOWNCASE else l)
         elif k[0] == "u":
             out += v.to_bytes(int(k[1]), "big")
-        elif k in ("fixed4", "rem"):
+        elif k in ("fixed4", "fixed16", "rem", "rem1"):
             out += bytes(v)
-        elif k == "c255":
+        elif k in ("c255", "tag"):
             out += bytes([len(v)]) + bytes(v)
         elif k == "txt":
             for r in v:
